@@ -99,6 +99,22 @@ def run(ctx):
         ratios = [10 ** rng.uniform(-3, 0.5) for _ in range(nfill - 1)]
         ntr = rng.choice([0, 1, 2, 3, 5])
         names = rng.sample([t for t in TRACES if t not in fills], ntr)
+        mixkind = rng.random()
+        if mixkind < 0.12:
+            # every gas of the mixture has opacity data (a CO2 atmosphere, say): no inactive gas at all
+            nfill = rng.choice([1, 2])
+            fills = rng.sample(ACTIVE, nfill)
+            ratios = [10 ** rng.uniform(-3, 0.5) for _ in range(nfill - 1)]
+            pool = [t for t in ACTIVE if t not in fills]
+            ntr = rng.randint(0, len(pool))
+            names = rng.sample(pool, ntr)
+            ctx.count('mixture: all gases active')
+        elif mixkind < 0.24:
+            # no gas of the mixture has opacity data
+            pool = [t for t in TRACES if t not in fills and t not in ACTIVE]
+            ntr = min(ntr, len(pool))
+            names = rng.sample(pool, ntr)
+            ctx.count('mixture: no gas active')
         regime = rng.choice(['low', 'low', 'high', 'exact1', 'over'])
         lv = np.logspace(rng.uniform(-4, 1), rng.uniform(4, 7), n + 1)[::-1]
         P = lv[:-1] * np.sqrt(lv[1:] / lv[:-1])
